@@ -38,7 +38,7 @@ COMMON = dict(wm='whitening_mat.npy', wmi='whitening_mat_inv.npy', sim='similar_
 
 def write_dataset(d, ds, naming='ks', col1=False, id_dtype=np.int32, time_dtype=np.uint64,
                   float_dtype=np.float32, alf_samples=True, dat_name='raw.dat', offset=0,
-                  tsv=None):
+                  tsv=None, alf_jitter=None):
     """Write `ds` under directory d. Returns the path of params.py."""
     d = Path(d)
     d.mkdir(parents=True, exist_ok=True)
@@ -52,7 +52,12 @@ def write_dataset(d, ds, naming='ks', col1=False, id_dtype=np.int32, time_dtype=
     if naming == 'ks':
         np.save(d / names['times'], vec(ds['samples'], time_dtype))
     else:
-        np.save(d / names['times'], vec(np.asarray(ds['samples'], dtype=np.float64) / rate, np.float64))
+        t = np.asarray(ds['samples'], dtype=np.float64)
+        if alf_jitter is not None:
+            # stored seconds that are NOT exactly on the sample grid (still non-decreasing): the
+            # loader must recover the samples by ROUNDING
+            t = t + np.asarray(alf_jitter, dtype=np.float64)
+        np.save(d / names['times'], vec(t / rate, np.float64))
         if alf_samples:
             np.save(d / names['samples'], vec(ds['samples'], time_dtype))
     np.save(d / names['st'], vec(ds['st'], id_dtype))
